@@ -166,6 +166,7 @@ func init() {
 	I["math.Ceil"] = fu("fceil")
 	I["math.Floor"] = fu("ffloor")
 	I["math.Trunc"] = fu("ftrunc")
+	I["math.Round"] = fu("fround")
 	I["math.Abs"] = fu("fabs")
 	I["math.Sqrt"] = func(ex *Exec, a []Value) Value { return ex.ts.FUn("fsqrt", a[0].(*Term)) }
 	I["math.Log10"] = func(ex *Exec, a []Value) Value { return ex.ts.FUn("flog10", a[0].(*Term)) }
